@@ -23,6 +23,16 @@ func (r Radix) Digits(i int64, out []int) []int {
 	return out
 }
 
+// Index is the inverse of Digits.
+func (r Radix) Index(d []int) int64 {
+	i, m := int64(0), int64(1)
+	for k, base := range r {
+		i += int64(d[k]) * m
+		m *= int64(base)
+	}
+	return i
+}
+
 // MergeCount is the multinomial number of order-preserving merges of sequences of the given
 // lengths.
 func MergeCount(lens []int) int64 {
